@@ -229,6 +229,15 @@ func genRegexRule(r *rng) (f *rules.NetworkRule) {
 		}
 		text := "/" + re + "/"
 		if r.chance(1, 4) {
+			if r.chance(1, 2) {
+				// a case-sensitive rule written with upper-case letters (its shortcut is lower-cased, the URL is not)
+				for _, w := range c05Words {
+					if len(w) >= 3 && w == strings.ToLower(w) && r.chance(1, 2) {
+						re = strings.ReplaceAll(re, w, pick(r, []string{strings.ToUpper(w), strings.ToUpper(w[:1]) + w[1:]}))
+					}
+				}
+				text = "/" + re + "/"
+			}
 			text += "$match-case"
 		}
 		var err error
@@ -366,6 +375,10 @@ func genC05URL(r *rng, n int, w *bufio.Writer) {
 			default:
 				u = pick(r, poolSchemes) + "://" + pick(r, poolDomains) + "/" + u
 			}
+			if (r.chance(1, 8) || (f.IsOptionEnabled(rules.OptionMatchCase) && r.chance(1, 3))) && strings.Contains(u, "://") {
+				// URL LENGTH: log-scale filler between the host and the member (8 bytes .. beyond the 4 KiB cap)
+				u = nLongURL(r, u, nPadLog(r, 8, 5000))
+			}
 			if len(u) == 0 || strings.ContainsAny(u, "\n\r") {
 				continue
 			}
@@ -421,12 +434,32 @@ func genC05Mask(r *rng, n int, w *bufio.Writer) {
 		if r.chance(1, 4) {
 			sb.WriteString(genPattern(r))
 		}
-		for k, m := 0, r.n(9); k < m; k++ {
+		for k, m := 0, nCount(r, r.n(9), 12, 9, 400); k < m; k++ { // 1 pattern in 12: log-scale up to 400 tokens
 			sb.WriteString(pick(r, rich))
 		}
 		emit(sb.String())
 		i++
 	}
+}
+
+// c05PlainTwin: the pattern of f as a rule without modifiers other than $match-case (nil if that text is not a
+// valid rule, e.g. too wide without the modifiers).
+func c05PlainTwin(f *rules.NetworkRule) *rules.NetworkRule {
+	p := f.VerifRaw().Pattern
+	text := p
+	if f.IsOptionEnabled(rules.OptionMatchCase) {
+		text += "$match-case"
+	}
+	pp, _, wl, err := rules.VerifParseRuleText(text)
+	if err != nil || wl || pp != p {
+		return nil
+	}
+	g, err := guardRule(text, 1)
+	if err != nil || g == nil || !plainRule(g) {
+		return nil
+	}
+
+	return g
 }
 
 func genC05MaskURL(r *rng, n int, w *bufio.Writer) {
@@ -451,6 +484,14 @@ func genC05MaskURL(r *rng, n int, w *bufio.Writer) {
 		if f.IsRegexRule() {
 			continue
 		}
+		if sides == nil && r.chance(1, 6) {
+			// the cross product case-sensitive rule x letter case of the pattern: the same pattern written in mixed case
+			// under $match-case (the shortcut is lower-cased at parse time, the URL the pattern sees is not)
+			t2 := mutateCase(r, f.VerifRaw().Pattern) + "$match-case"
+			if g, err := guardRule(t2, 1); err == nil && g != nil && !g.IsRegexRule() {
+				f, text = g, t2
+			}
+		}
 		re, status := f.VerifPrepared()
 		for k := 0; k < 3; k++ {
 			u := urlAround(r, f.VerifRaw().Pattern)
@@ -463,6 +504,11 @@ func genC05MaskURL(r *rng, n int, w *bufio.Writer) {
 				pad := 4096 - len("http://x.example/") - r.n(12)
 				u = "http://x.example/" + strings.Repeat("p", pad) + strings.TrimPrefix(u, "http://")
 			}
+			if r.chance(1, 6) {
+				// URL LENGTH on a log scale (8 bytes .. beyond the 4 KiB cap): filler between the host and what the pattern is
+				// about (this op is evaluated in Go alone, so the full range costs nothing on the Lean side)
+				u = nLongURL(r, u, nLog(r, 8, 5000))
+			}
 			if r.chance(1, 4) {
 				u = mutateCase(r, u)
 			}
@@ -472,6 +518,17 @@ func genC05MaskURL(r *rng, n int, w *bufio.Writer) {
 			fmt.Fprintf(w, "assert c05.maskurl %s %s = %s ## %q shortcut=%q url=%q accepts=%v\n", wb(text), wb(req.URL), wbool(law),
 				text, f.Shortcut, req.URL, accepts)
 			i++
+			// the same through Match itself ("a rule's match result is the same as it would be with the shortcut test
+			// removed"): the rule's pattern alone (plus $match-case if the rule has it) as a rule of its own -- its Match
+			// has nothing to test but the shortcut and the pattern, so it must equal the pattern's verdict
+			if g := c05PlainTwin(f); g != nil && !strings.ContainsAny(req.URL, "\n\r") {
+				gre, gst := g.VerifPrepared()
+				gacc := gst == 0 || (gst == 1 && gre.MatchString(req.URL))
+				m := guardStr(func() string { return wbool(g.Match(req)) })
+				fmt.Fprintf(w, "assert c05.matchurl %s %s = %s ## %q shortcut=%q url=%q (%d bytes) pattern accepts=%v Match=%s\n", wb(g.RuleText), wb(req.URL),
+					wbool(m == wbool(gacc)), g.RuleText, g.Shortcut, req.URL, len(req.URL), gacc, m)
+				i++
+			}
 		}
 	}
 }
